@@ -216,3 +216,36 @@ package k8s
 //@   ensures [C15] Jlen == old(Jlen) && err == nil ==> !gotHasEsc(r)
 //@ loop #0
 //@   invariant forall j :: 0 <= j && j < #i ==> updatedNode.Spec.Taints[j].Key != ToBeRemovedByAutoscalerKey
+
+// ---------------------------------------------------------------- util.go / node_state.go
+
+//@ spec isDS(p *v1.Pod) bool = exists i :: 0 <= i && i < len(p.OwnerReferences) && p.OwnerReferences[i].Kind == "DaemonSet"
+//@ func PodIsDaemonSet(pod) (r)
+//@   requires pod != nil
+//@   ensures r <==> isDS(pod)
+//@ loop #0
+//@   invariant forall j :: 0 <= j && j < #i ==> pod.OwnerReferences[j].Kind != "DaemonSet"
+
+//@ spec isStatic(p *v1.Pod) bool = has(p.Annotations, "kubernetes.io/config.source") && p.Annotations["kubernetes.io/config.source"] == "file"
+//@ func PodIsStatic(pod) (r)
+//@   requires pod != nil
+//@   ensures r <==> isStatic(pod)
+
+// podsAllDS(i): every pod recorded for this node info is DaemonSet-owned
+//@ spec podsAllDS(i *NodeInfo) bool = forall j :: 0 <= j && j < len(i.pods) ==> i.pods[j] != nil && isDS(i.pods[j])
+//@ spec infoPodsOK(i *NodeInfo) bool = forall j :: 0 <= j && j < len(i.pods) ==> i.pods[j] != nil
+// nodeEmptyIn(n, m): the map has an entry for the node and all its pods are DaemonSet pods
+//@ spec nodeEmptyIn(n *v1.Node, m map[string]*NodeInfo) bool = has(m, n.Name) && m[n.Name] != nil && podsAllDS(m[n.Name])
+// infoMapOK(m): entries are non-nil and list non-nil pods
+//@ spec infoMapOK(m map[string]*NodeInfo) bool = forall s string :: has(m, s) ==> m[s] != nil && infoPodsOK(m[s])
+
+//@ func NodePodsRemaining(node, nodeInfoMap) (n, ok)
+//@   requires node != nil && infoMapOK(nodeInfoMap)
+//@   ensures ok <==> has(nodeInfoMap, node.Name)
+//@   ensures ok ==> n >= 0 && (n == 0 <==> podsAllDS(nodeInfoMap[node.Name]))
+//@ loop #0
+//@   invariant pods >= 0 && (pods == 0 <==> (forall j :: 0 <= j && j < #i ==> isDS(nodeInfoMap[node.Name].pods[j])))
+
+//@ func NodeEmpty(node, nodeInfoMap) (r)
+//@   requires node != nil && infoMapOK(nodeInfoMap)
+//@   ensures r <==> nodeEmptyIn(node, nodeInfoMap)
